@@ -1,3 +1,4 @@
+import Swat4.Lemmas.FactsExtra17
 import Swat4.Lemmas.Rest
 import Swat4.Lemmas.RestBody
 import Swat4.Lemmas.RestSlug
